@@ -1042,7 +1042,8 @@ class IRGenerator:
         """
         route_schema = self._validate_stone_cfg()
         self.api.add_route_schema(route_schema)
-        for namespace in self.api.namespaces.values():
+        # Resolving a reference to stone_cfg re-registers that namespace.
+        for namespace in list(self.api.namespaces.values()):
             env = self._get_or_create_env(namespace.name)
             for route in namespace.routes:
                 self._populate_route_attributes_helper(env, route, route_schema)
